@@ -417,6 +417,32 @@ def groups_end_to_end(src):
 
 
 @rigged
+def strategy_precedence(src):
+    """H18i: the starting_strategy of an application: the value set on its element (whatever it is, also the one that
+    happens to be the class default) supersedes the [supvisors] starting_strategy option, which applies otherwise -
+    through the real Parser and Context.setdefault_application"""
+    from rig.cluster import memory_parser
+    from supervisor.states import ProcessStates as PS
+    from supvisors.ttypes import StartingStrategies
+    names = [x.name for x in StartingStrategies]
+    option = src.pick('option_starting_strategy', names)
+    element = src.pick('element_starting_strategy', [None, 'BOGUS'] + names)
+    core = Core(2, 0)
+    core.options.starting_strategy = StartingStrategies[option]
+    doc = ('<root><application name="app">' + _elt('starting_strategy', element)
+           + '<programs><program name="p"><start_sequence>1</start_sequence></program></programs></application></root>')
+    core.parser = memory_parser(core, doc)
+    for i in core.ids:
+        core.identify(i)
+    core.add_process(core.ids[0], 'app', 'p', PS.STOPPED)
+    got = core.context.applications['app'].rules.starting_strategy.name
+    expected = element if element in names else option
+    src.check('element-value-supersedes-the-option', got == expected, sig=f'element={element}', got=got,
+              expected=expected, option=option)
+    src.reach('resolved')
+
+
+@rigged
 def options(src):
     """H18e: every [supvisors] option outside its documented range falls back to its default"""
     import supvisors.options as OPT
@@ -583,6 +609,8 @@ HARNESSES = [
             doc='# and @ over homogeneous groups'),
     Harness('H18h', groups_end_to_end, quick={}, thorough={}, reach=('resolved',), timeout=(60, 120),
             doc='# and @ through rules document -> Parser -> Context -> Starter planning, group in or out of the sequence'),
+    Harness('H18i', strategy_precedence, quick={}, thorough={}, reach=('resolved',), timeout=(30, 60),
+            doc='application starting_strategy: element value vs [supvisors] option default, via Parser and Context'),
     Harness('H18e', options, quick={}, thorough={}, reach=('resolved',), timeout=(100, 300),
             doc='[supvisors] options: ranges with symbolic values, NaN / inf, synchro_options consistency'),
     Harness('H18f', shipped_files, quick={}, thorough={}, reach=('loaded',), timeout=(30, 60),
